@@ -24,6 +24,14 @@ import (
 // ---------------------------------------------------------------------------------
 // codecs of the harness (independent of pike's wrappers)
 
+// wireEnc: the Content-Encoding token an origin announces for a scripted encoding.
+func wireEnc(enc string) string {
+	if enc == "gzipm" {
+		return "gzip"
+	}
+	return enc
+}
+
 func encodeBody(enc string, raw []byte) []byte {
 	switch enc {
 	case "":
@@ -34,6 +42,10 @@ func encodeBody(enc string, raw []byte) []byte {
 		_, _ = w.Write(raw)
 		_ = w.Close()
 		return b.Bytes()
+	case "gzipm":
+		// a gzip body of two members (RFC 1952 allows any number: concatenated .gz files, pigz)
+		h := len(raw) / 2
+		return append(encodeBody("gzip", raw[:h]), encodeBody("gzip", raw[h:])...)
 	case "br":
 		var b bytes.Buffer
 		w := brotli.NewWriterLevel(&b, 4)
